@@ -14,6 +14,8 @@ VERIF = os.path.dirname(os.path.dirname(os.path.abspath(__file__)))
 LEAN = os.path.join(VERIF, "lean")
 DRIVER = os.path.join(LEAN, ".lake", "build", "bin", "driver")
 REPO = os.environ.get("GENLM_REPO", "/repo")
+# development only (seeded-change runs against a scratch worktree, in parallel): where replay/ and evidence/ are written
+OUT = os.environ.get("VERIF_OUT", VERIF)
 GUARD = "GENLM_GRAMMAR_VERIF"
 
 STD_AXIOMS = {"propext", "Classical.choice", "Quot.sound"}
